@@ -36,7 +36,7 @@ var ErrInjected = errors.New("verif: injected storage fault")
 // faultySync performs the sync of the current step while recording its
 // storage events or injecting the configured fault; after an injected fault
 // the client retries, as a user would, and the retry must succeed.
-func (r *Runner) faultySync(p *Peer, pushOnly bool, event int, record bool, deferRetry ...bool) *Failure {
+func (r *Runner) faultySync(p *Peer, pushOnly bool, event int, record bool, retryMode ...int) *Failure {
 	var events []CallRec
 	stored := false
 	fired := false
@@ -103,11 +103,38 @@ func (r *Runner) faultySync(p *Peer, pushOnly bool, event int, record bool, defe
 	} else {
 		r.log("c%d: sync failed as injected (%v); retrying", p.Idx, truncate(err.Error(), 80))
 	}
-	if len(deferRetry) > 0 && deferRetry[0] {
+	mode := 0
+	if len(retryMode) > 0 {
+		mode = retryMode[0]
+	}
+	if mode == 1 {
 		// no immediate retry: the client goes on (possibly editing) and the
 		// next sync of the program resends the unacknowledged changes
 		// together with whatever was added since
 		r.Ev["retry_deferred"]++
+		return r.ExFail
+	}
+	if mode == 3 {
+		// the client goes on: one more edit, pushed by a push-only sync (a
+		// realtime client in push-only mode), before any pulling sync
+		r.Ev["retry_edit_then_pushonly"]++
+		if f := r.Step(Step{Who: p.Idx, Op: "cinc", A: 1}); f != nil {
+			return f
+		}
+		if err := p.C.Sync(r.ctx, client.WithKey(r.DocKey).WithPushOnly()); err != nil {
+			return failf("RETRYFAIL", "c%d: push-only sync (one more edit) after the injected fault fails: %v", p.Idx, err)
+		}
+		r.S.WaitIdle()
+		return r.ExFail
+	}
+	if mode == 2 {
+		// the retry is a push-only sync (a client in realtime push-only mode):
+		// it resends the changes but pulls nothing
+		r.Ev["retry_pushonly"]++
+		if err := p.C.Sync(r.ctx, client.WithKey(r.DocKey).WithPushOnly()); err != nil {
+			return failf("RETRYFAIL", "c%d: push-only retry after the injected fault fails: %v", p.Idx, err)
+		}
+		r.S.WaitIdle()
 		return r.ExFail
 	}
 	if err := doSync(); err != nil {
